@@ -132,6 +132,8 @@ type Engine struct {
 	dir   string
 	sequential bool
 	aborting atomic.Bool
+	seamsOn  atomic.Bool
+	vfsKind  string
 
 	mu       sync.Mutex
 	names    map[int64]string
@@ -142,6 +144,7 @@ type Engine struct {
 	faults   map[string]string
 	cur      map[string]*OpRec
 	finished map[string]bool
+	open     map[*simW]bool
 
 	event   int
 	tapeIdx int
@@ -172,6 +175,7 @@ type RunResult struct {
 	FinalSnap *Snapshot
 	CtrDelta map[string]float64
 	SchedHash string
+	InUse     int
 }
 
 func (e *Engine) taskName() string {
@@ -199,6 +203,9 @@ func (e *Engine) seam(op, id string) string {
 	if e.aborting.Load() {
 		return "abort"
 	}
+	if !e.seamsOn.Load() {
+		return ""
+	}
 	name := e.taskName()
 	e.mu.Lock()
 	base := name + ":" + op
@@ -207,6 +214,11 @@ func (e *Engine) seam(op, id string) string {
 	key := base + "#" + strconv.Itoa(n)
 	kind := e.faults[key]
 	e.stats.Seams++
+	if tf, ok := e.plan.Cfg.Extra["tail_from"]; ok && kind != "" {
+		if r := e.cur[name]; r != nil && int64(r.Idx) >= tf {
+			kind = "" // the tail of a fault plan is fault-free by definition
+		}
+	}
 	if r := e.cur[name]; r != nil {
 		r.Seams = append(r.Seams, key)
 		if kind != "" {
@@ -216,7 +228,7 @@ func (e *Engine) seam(op, id string) string {
 	if kind != "" {
 		e.stats.Fired[op+"/"+kind]++
 	}
-	if e.sequential {
+	if e.sequential || (e.plan.Cfg.Seam == "driver" && !strings.HasPrefix(op, "drv.")) {
 		e.mu.Unlock()
 		return kind
 	}
@@ -284,7 +296,11 @@ func (y simP) Logs() ([]string, error) {
 	if k := y.e.seam("Logs", ""); k != "" {
 		return nil, injected(k)
 	}
-	return y.in.Logs()
+	l, err := y.in.Logs()
+	if y.e.plan.Cfg.Seam == "driver" {
+		y.e.setHolder(false)
+	}
+	return l, err
 }
 func (y simP) ReadOps(id string) (persistence.LogStateReadOps, error) {
 	if k := y.e.seam("ReadOps", id); k != "" {
@@ -302,13 +318,16 @@ func (y simP) WriteOps(id string) (persistence.LogStateWriteOps, error) {
 	}
 	w, err := y.in.WriteOps(id)
 	if err != nil {
+		y.e.setHolder(false)
 		return nil, err
 	}
 	y.e.setHolder(true)
+	h := &simW{in: w, e: y.e, id: id}
 	y.e.mu.Lock()
 	y.e.stats.Probes["write_handles_opened"]++
+	y.e.open[h] = true
 	y.e.mu.Unlock()
-	return &simW{in: w, e: y.e, id: id}, nil
+	return h, nil
 }
 
 type simR struct {
@@ -321,7 +340,11 @@ func (y simR) GetLatest() ([]byte, error) {
 	if k := y.e.seam("R.GetLatest", y.id); k != "" {
 		return nil, injected(k)
 	}
-	return y.in.GetLatest()
+	b, err := y.in.GetLatest()
+	if y.e.plan.Cfg.Seam == "driver" {
+		y.e.setHolder(false)
+	}
+	return b, err
 }
 
 type simW struct {
@@ -359,6 +382,7 @@ func (y *simW) Close() error {
 		y.e.setHolder(false)
 		y.e.mu.Lock()
 		y.e.stats.Probes["write_handles_closed"]++
+		delete(y.e.open, y)
 		y.e.mu.Unlock()
 	}
 	if k != "" && k != "abort" {
@@ -400,14 +424,24 @@ func (e *Engine) openStore() error {
 		}
 		path := filepath.Join(e.dir, "w.db")
 		drv := "sqlite3"
-		db, err := sql.Open(drv, path) // as cmd/omniwitness/monolith.go does
+		if e.plan.Cfg.Seam == "driver" {
+			drv = "sqlite3-sim"
+		}
+		dsn := path
+		if e.plan.Cfg.Extra["vfs"] != 0 {
+			if err := RegisterVFS(); err != nil {
+				return err
+			}
+			dsn = "file:" + path + "?vfs=verifsim"
+		}
+		db, err := sql.Open(drv, dsn) // as cmd/omniwitness/monolith.go does (driver and VFS name aside)
 		if err != nil {
 			return err
 		}
 		db.SetMaxOpenConns(1) // ditto
 		e.db = db
 		e.inner = psql.NewPersistence(db)
-		side, err := sql.Open("sqlite3", path)
+		side, err := sql.Open("sqlite3", "file:"+path+"?_busy_timeout=1")
 		if err != nil {
 			return err
 		}
@@ -422,6 +456,15 @@ func (e *Engine) openStore() error {
 }
 
 func (e *Engine) closeStore() {
+	e.mu.Lock()
+	leaked := make([]*simW, 0, len(e.open))
+	for h := range e.open {
+		leaked = append(leaked, h)
+	}
+	e.mu.Unlock()
+	for _, h := range leaked {
+		_ = h.in.Close() // a handle the code under test leaked: end its transaction so database/sql's goroutines can finish
+	}
 	if e.db != nil {
 		e.db.Close()
 	}
@@ -527,10 +570,21 @@ func (e *Engine) execOp(idx int, task string, invokeEvent int) {
 		if e.plan.Cfg.Snap {
 			rec.Pre = e.snapshot()
 		}
+		if tf, ok := e.plan.Cfg.Extra["tail_from"]; ok && e.vfsKind != "" && int64(idx) >= tf {
+			VFSSetFail(-1, -1, 0)
+		}
 		rec.TInvoke = time.Now()
 		rec.Out, rec.Err = e.wit.Update(ctx, req.LogID, req.Old, req.CP, req.Proof)
 		rec.TReturn = time.Now()
 		rec.Class = classify(rec.Err)
+		if e.vfsKind != "" {
+			if n := VFSFired(); n > 0 {
+				e.mu.Lock()
+				rec.Fired = append(rec.Fired, fmt.Sprintf("vfs:io#0=%s", e.vfsKind))
+				e.stats.Fired["vfs/"+e.vfsKind] += int(n)
+				e.mu.Unlock()
+			}
+		}
 		if e.plan.Cfg.Snap {
 			rec.Post = e.snapshot()
 		}
@@ -679,7 +733,7 @@ func (e *Engine) runConcurrent() {
 		var elig []string
 		for _, k := range keys {
 			t := taskOf(k)
-			if poolBusy && !e.holder[t] && !strings.Contains(k, ":op#") {
+			if poolBusy && !e.holder[t] && !(strings.Contains(k, ":op#") && cfg.Seam == "iface") {
 				continue
 			}
 			elig = append(elig, k)
@@ -834,6 +888,15 @@ func mapKeys(m map[string]bool) []string {
 // abort unblocks everything so that the bubble can end.
 func (e *Engine) abort(done chan struct{}) {
 	e.aborting.Store(true)
+	e.mu.Lock()
+	leaked := make([]*simW, 0, len(e.open))
+	for h := range e.open {
+		leaked = append(leaked, h)
+	}
+	e.mu.Unlock()
+	for _, h := range leaked {
+		_ = h.in.Close()
+	}
 	if e.db != nil {
 		e.db.Close() // fails every request waiting in the pool
 	}
@@ -889,12 +952,17 @@ func Execute(t *testing.T, plan *Plan) (res *RunResult) {
 		if r := recover(); r != nil {
 			// synctest reports goroutines left blocked when the bubble ends
 			res.Infra = append(res.Infra, fmt.Sprintf("bubble ended abnormally: %v", r))
+			if os.Getenv("VERIF_DEBUG") != "" {
+				buf := make([]byte, 1<<20)
+				n := runtime.Stack(buf, true)
+				fmt.Fprintf(os.Stderr, "%s\n", buf[:n])
+			}
 		}
 	}()
 	synctest.Test(t, func(t *testing.T) {
 		e := &Engine{plan: plan, W: NewWorld(plan), names: map[int64]string{}, parked: map[string]*parkedTask{},
 			inflight: map[string]bool{}, holder: map[string]bool{}, occ: map[string]int{}, faults: map[string]string{},
-			cur: map[string]*OpRec{}, finished: map[string]bool{}, tracked: map[string]Stored{}, stats: newStats()}
+			cur: map[string]*OpRec{}, finished: map[string]bool{}, open: map[*simW]bool{}, tracked: map[string]Stored{}, stats: newStats()}
 		res.W = e.W
 		for _, f := range plan.Faults {
 			e.faults[f.At] = f.Kind
@@ -923,18 +991,38 @@ func Execute(t *testing.T, plan *Plan) (res *RunResult) {
 			return
 		}
 		e.wit = wit
+		curEngine.Store(e)
+		defer curEngine.Store(nil)
+		e.seamsOn.Store(true)
+		defer e.seamsOn.Store(false)
 		if e.side != e.inner {
 			_ = e.side.Init()
 		}
 		e.ctr0 = recorder.Snapshot()
+		for _, f := range plan.Faults {
+			if strings.HasPrefix(f.At, "vfs:") && plan.Cfg.Extra["vfs"] != 0 {
+				var a, b int64
+				fmt.Sscanf(f.At, "vfs:%d-%d", &a, &b)
+				mode := map[string]int{"ioerr": 1, "full": 2, "short": 3}[f.Kind]
+				base := VFSOpCount()
+				VFSFired()
+				VFSSetFail(base+a, base+b, mode)
+				e.vfsKind = f.Kind
+				defer VFSSetFail(-1, -1, 0)
+			}
+		}
 		if e.sequential {
 			e.runSequential()
 		} else {
 			e.runConcurrent()
 		}
 		e.CtrDelta = recorder.Delta(e.ctr0)
+		e.seamsOn.Store(false)
 		if !e.aborting.Load() {
 			res.FinalSnap = e.snapshot()
+		}
+		if e.db != nil {
+			res.InUse = e.db.Stats().InUse
 		}
 		e.stats.SimNanos = int64(time.Since(e.start))
 		res.Hist, res.Sets, res.EvLog, res.Stats = e.hist, e.sets, e.evlog, e.stats
